@@ -813,7 +813,7 @@ fn dom_with(args: &[String], expanded: bool) -> String {
         };
         // an allocating operation consumes exactly one handle slot whatever happened
         let name = op.split(':').next().unwrap_or("");
-        if ["ce", "ct", "cc", "cd", "cp", "ca", "cr", "st", "ga", "ch"].contains(&name) && st.handles.len() == before {
+        if ["ce", "ct", "cc", "cd", "cp", "ca", "cr", "st", "ga", "ch", "gni"].contains(&name) && st.handles.len() == before {
             st.handles.push(None);
         }
         let snap = catch_unwind(AssertUnwindSafe(|| format!("{{{}}} {}", snapshot(&st), monitors(&st, &exprs))))
